@@ -41,6 +41,8 @@ L  least squares: every pilot matrix with entries in {1,-1,j,0} of the small
 import hashlib
 import itertools
 import math
+import os
+from contextlib import contextmanager
 
 import numpy as np
 
@@ -134,6 +136,63 @@ def designated_roots(nzc):
     return out
 
 
+MISSING = object()
+
+
+def _private(obj, *names, default=MISSING):
+    """optional access to a NON-public attribute of the code under test (first candidate name that exists);
+    its absence is never a verdict about the property"""
+    for n in names:
+        try:
+            return getattr(obj, n)
+        except AttributeError:
+            continue
+    return default
+
+
+class LibraryOutput(Exception):
+    """a value returned by the library for a VALID call has a form the oracle cannot even evaluate"""
+
+    def __init__(self, sig, observed=None, expected=None):
+        Exception.__init__(self, "%s: observed %r expected %r" % ("|".join(sig), observed, expected))
+        self.sig, self.observed, self.expected = tuple(sig), observed, expected
+
+
+def raised_by_own_code(e):
+    """True when the innermost frame that belongs either to the code under test or to /verif is in /verif
+    (frames of numpy / the standard library are skipped): the check itself is wrong, not the library"""
+    import traceback
+    frames = traceback.extract_tb(e.__traceback__)
+    for fr in reversed(frames):
+        f = os.path.abspath(fr.filename)
+        if f.startswith(common.REPO + os.sep):
+            return False
+        if f.startswith(common.VERIF_DIR + os.sep):
+            return True
+    return False
+
+
+@contextmanager
+def guard(chk, prefix, case):
+    """chk.guard, except that an exception raised by the check's own code is BROKEN machinery, never a violation;
+    exceptions raised inside pyphysim for a valid call remain violations"""
+    with chk.guard(prefix, case):
+        try:
+            yield
+        except (KeyboardInterrupt, SystemExit, Broken):
+            raise
+        except LibraryOutput as e:
+            chk.fail(e.sig, case, observed=e.observed, expected=e.expected,
+                     msg="the library's result for a valid call cannot be evaluated")
+        except BaseException as e:       # noqa
+            if raised_by_own_code(e):
+                import traceback
+                fr = traceback.extract_tb(e.__traceback__)[-1]
+                raise Broken("the check's own code raised %s: %s (%s:%d %s)" % (
+                    type(e).__name__, e, os.path.basename(fr.filename), fr.lineno, fr.name)) from e
+            raise
+
+
 def _feed(h, v):
     if isinstance(v, np.ndarray):
         h.update(("nd%s%s" % (v.dtype, v.shape)).encode())
@@ -152,7 +211,10 @@ def _feed(h, v):
 def obj_digest(o):
     """digest of EVERY attribute of an object (arrays by dtype, shape and bytes)"""
     h = hashlib.sha1()
-    _feed(h, bfs.state_of(o))
+    try:
+        _feed(h, bfs.state_of(o))
+    except Exception:       # noqa  -- only ever used for OUTCOMES
+        return "unavailable"
     return h.hexdigest()
 
 
@@ -170,7 +232,10 @@ def _watch_list():
             spaces = [(name, bfs.state_of(mod))]
             for cn, c in sorted(bfs.state_of(mod).items()):
                 if isinstance(c, type) and getattr(c, "__module__", "") == mod.__name__:
-                    spaces.append((name + "." + cn, bfs.state_of(c)))
+                    try:
+                        spaces.append((name + "." + cn, bfs.state_of(c)))     # class dict: properties are not evaluated
+                    except Exception:       # noqa
+                        pass
             for sn, space in spaces:
                 for k in sorted(space):
                     v = space[k]
@@ -236,10 +301,10 @@ def judge_history(chk, case, body, is_invalid_event, prefix):
     except (KeyboardInterrupt, SystemExit, Broken):
         raise
     except Exception as e:       # noqa
-        if H.invalid is None:
+        if H.invalid is None or isinstance(e, LibraryOutput) or raised_by_own_code(e):
             for sig, c, kw in H.fails:
                 chk.fail(sig, c, **kw)
-            raise
+            raise                                  # the caller's guard decides: library -> violation, own code -> Broken
         H.fail(("valid_call_raises_" + type(e).__name__,), case, observed="%s: %s" % (type(e).__name__, e),
                expected="the result of a lone fresh object")
     if not H.fails:
@@ -247,7 +312,7 @@ def judge_history(chk, case, body, is_invalid_event, prefix):
     if H.invalid is not None:
         stripped = dict(case, history=[e for e in case["history"] if not is_invalid_event(e)])
         sub = HistoryJudge(Check(PID, LEVEL, ENGINE, RULE, child=True))
-        with sub.chk.guard(prefix, stripped):     # the same signature as a history that never had the invalid call
+        with guard(sub.chk, prefix, stripped):     # the same signature as a history that never had the invalid call
             body(sub, stripped)
         if sub.fails or sub.chk.violations:
             for sig, c, kw in sub.fails:           # wrong without the invalid call as well
@@ -276,7 +341,16 @@ def eval_prime(chk, case):
     chk.count("eval_prime_selection")
     chk.outcome("prime_gap", size - want)
     chk.outcome("expected_nzc", want)
-    got = RootSequence._get_largest_prime_lower_than_number(size)
+    # public surface: RootSequence(1, size).Nzc (sizes > 24).  The selection function itself is not public: used as
+    # an optional extra when a candidate name exists (the only way to see the selection for sizes 12 and 24)
+    fn = _private(RootSequence, "_get_largest_prime_lower_than_number", "get_largest_prime_lower_than_number",
+                  "_largest_prime_lower_than_number")
+    got = None
+    if fn is MISSING:
+        chk.outcome("oracle_input_unavailable", "RootSequence prime selection function")
+        chk.count("skipped_private_prime_selection_function")
+    else:
+        got = fn(size)
     got_obj = None
     if size > 24:
         obj = RootSequence(root_index=1, size=size)
@@ -286,12 +360,12 @@ def eval_prime(chk, case):
                      observed=(obj.size, shape_of(obj.seq_array())), expected=size)
     if size > 24:
         chk.nontriv(("prime", size))
-    bad = [(via, g) for via, g in (("_get_largest_prime_lower_than_number", got), ("RootSequence(1,size).Nzc", got_obj))
+    bad = [(via, g) for via, g in (("RootSequence(1,size).Nzc", got_obj), ("selection function", got))
            if g is not None and (int(g) != want or isinstance(g, bool))]
     if bad:
         via, g = bad[0]
         g = int(g)
-        if g == 1009 and want > 1009 and int(RootSequence._get_largest_prime_lower_than_number(MAX_SIZE)) == 1009:
+        if g == 1009 and want > 1009 and int(RootSequence(root_index=1, size=MAX_SIZE).Nzc) == 1009:
             how = "table_ends_at_1009"
         elif g < want and _IS_PRIME[g]:
             how = "smaller_prime_returned"
@@ -307,7 +381,7 @@ def eval_prime(chk, case):
 def part_prime(chk):
     for size in [12, 24] + list(range(25, MAX_SIZE + 1)):
         case = {"part": "P", "size": size}
-        with chk.guard(("prime_selection",), case):
+        with guard(chk, ("prime_selection",), case):
             eval_prime(chk, case)
 
 
@@ -450,9 +524,9 @@ def eval_zc(chk, case, tools):
         a = np.asarray(a)
         ref = x if a.size == size else x[:nzc]
         chk.count("eval_entry_point_equalities")
-        if a.shape != ref.shape or a.tobytes() != np.ascontiguousarray(ref).tobytes():
+        if a.shape != ref.shape or not numerics.close(a, ref, max(1.0, math.pi * u * (nzc + 1)), C_ZC):
             chk.fail(("entry_points", "root_sequence", name), case, observed="differs from RootSequence(root, size)",
-                     expected="bit-identical", msg="max difference %.6g" % numerics.err(a, ref))
+                     expected="the same sequence", msg="max difference %.6g" % numerics.err(a, ref))
 
 
 def eval_table(chk, case):
@@ -569,7 +643,7 @@ def eval_shift(chk, case):
                 chk.fail(("user_sequence", kind, "shape"), dict(case, shift=s, cover=cc),
                          observed=(shape_of(a), ue.size, tuple(ue.shape)), expected=(want_shape, size))
                 return
-            if ue.normalized is not norm:
+            if bool(ue.normalized) != norm:
                 chk.fail(("user_sequence", kind, "normalized_flag"), dict(case, shift=s, cover=cc),
                          observed=ue.normalized, expected=norm)
             if cc == "none" and not norm:
@@ -579,9 +653,10 @@ def eval_shift(chk, case):
                 for name, alt in (("get_%s_seq" % kind, (get_srs_seq if kind == "srs" else get_dmrs_seq)(root, s)),
                                   ("get_shifted_root_seq", get_shifted_root_seq(root, s, D))):
                     chk.count("eval_entry_point_equalities")
-                    if np.shape(alt) != a.shape or np.asarray(alt).tobytes() != a.tobytes():
+                    if np.shape(alt) != a.shape or not numerics.close(np.asarray(alt), a, 2 * math.pi * size, C_SHIFT):
                         chk.fail(("entry_points", "user_sequence", kind, name), dict(case, shift=s),
-                                 observed="differs from the class", expected="bit-identical")
+                                 observed="differs from the class by %.6g" % numerics.err(np.asarray(alt), a),
+                                 expected="the same sequence")
             if cc == "none":
                 plain[s] = a
                 # constant amplitude: |a| = 1 (or 1/sqrt(N) when normalised)
@@ -775,6 +850,8 @@ def build_obs(case, cache):
     H = true_response(taps, nbins)                       # Nr x nbins
     ue = cache.get(skind, N, root, shift, cc, norm)
     seq = np.asarray(ue.seq_array())                     # (N,) or (2, N)
+    if seq.shape != ((2, N) if occ else (N,)) or seq.dtype.kind not in "cf":
+        raise LibraryOutput(("user_sequence", skind, "shape"), (seq.shape, str(seq.dtype)), (2, N) if occ else (N,))
     Hp = H[:, ::mult]                                    # response on the pilot subcarriers
     if occ:
         Y = seq[None, :, :] * Hp[:, None, :]             # Nr x Nc x N
@@ -788,6 +865,8 @@ def build_obs(case, cache):
         mag = max(mag, float(np.sum(np.abs(taps2), axis=1).max()))
         H2 = true_response(taps2, nbins)[:, ::mult]
         seq2 = np.asarray(cache.get(skind, N, root, s2, cc2, norm).seq_array())
+        if seq2.shape != seq.shape:
+            raise LibraryOutput(("user_sequence", skind, "shape"), seq2.shape, seq.shape)
         if occ:
             Y = Y + seq2[None, :, :] * H2[:, None, :]
         else:
@@ -817,8 +896,13 @@ def make_estimator(kind, b):
 
 def run_estimator(est_obj, b, obs, K):
     if b["occ"]:
-        return np.asarray(est_obj.estimate_channel_freq_domain(obs, K, extra_dimension=b["xd"]))
-    return np.asarray(est_obj.estimate_channel_freq_domain(obs, K))
+        r = est_obj.estimate_channel_freq_domain(obs, K, extra_dimension=b["xd"])
+    else:
+        r = est_obj.estimate_channel_freq_domain(obs, K)
+    r = np.asarray(r)
+    if r.dtype.kind not in "cfiu":
+        raise LibraryOutput(("cazac_estimator", b["variant"], "result_not_numeric"), str(r.dtype), "numeric array")
+    return r
 
 
 def est_context(case):
@@ -889,7 +973,7 @@ def eval_est(chk, case, cache):
         # does the same configuration pass at unit gain / plain contiguous complex128 input?
         base = {k: v for k, v in case.items() if k not in ("gain", "gain_i", "layout")}
         sub = Check(PID, LEVEL, ENGINE, RULE, child=True)
-        with sub.guard(("x",), base):
+        with guard(sub, ("x",), base):
             eval_est(sub, base, cache)
         if not sub.violations:
             chk.fail(("cazac_estimator", variant, "wrong_only_for", ctx), case,
@@ -996,8 +1080,9 @@ def _seq_history_body(chk, case):
                 chk.fail(("shared_root_history", "user_sequence_depends_on_history"), at,
                          observed="differs from the sequence of a fresh RootSequence/user pair",
                          expected="bit-identical", msg="op %r after %r" % (op, [SEQ_OPS[i] for i in hist[:step]]))
-            if np.shares_memory(a, rs.seq_array()):
-                chk.fail(("shared_root_history", "user_sequence_aliases_root"), at, observed="shares memory")
+            # views vs copies are not the property's business (values are): recorded; a harmful alias shows up as a
+            # changed root after the 'clobber' event
+            chk.outcome("user_sequence_memory", "shares_root" if np.shares_memory(a, np.asarray(rs.seq_array())) else "own")
             live.append((op, ue, a.tobytes()))
             chk.outcome("history_event", op)
         # after every event: the root is untouched, earlier users are untouched, cover-code arguments keep their content
@@ -1113,7 +1198,7 @@ def _est_history_body(chk, case, cache):
         kappa, c, scale = est_tolerance(ec, b)
         if shape_of(est) != shape_of(b["want"]) or not numerics.close(est, b["want"], kappa, c, scale_=scale):
             sub = Check(PID, LEVEL, ENGINE, RULE, child=True)
-            with sub.guard(("cazac_estimator", variant), ec):
+            with guard(sub, ("cazac_estimator", variant), ec):
                 eval_est(sub, ec, cache)
             if not sub.violations:
                 chk.fail(("cazac_estimator", variant, "history", "not_exact_on_reused_object"), at,
@@ -1125,8 +1210,8 @@ def _est_history_body(chk, case, cache):
             if arr.tobytes() != snap:
                 chk.fail(("cazac_estimator", variant, "history", "earlier_result_changed"), at,
                          msg="estimate returned by call %d changed during call %d" % (j, step))
-        if any(np.shares_memory(est, o) for o in (buf, np.asarray(est_obj.ue_ref_seq))):
-            chk.fail(("cazac_estimator", variant, "history", "result_aliases_input"), at)
+        chk.outcome("estimate_memory", "aliases_input" if any(
+            np.shares_memory(est, o) for o in (buf, np.asarray(est_obj.ue_ref_seq))) else "own")
         # the caller scribbles over the previous result, keeps the current one
         for arr, _ in kept:
             if arr.flags.writeable:
@@ -1177,7 +1262,7 @@ def est_unit(chk, unit, cache):
                     case = {"part": "E", "N": N, "kind": kind, "normalize": norm, "shift": shift, "root": root,
                             "L": L, "K": K, "rx": rx, "interf": [list(t) for t in interf],
                             "fam": fam, "off_h": off_h, "off_i": off_i}
-                    with chk.guard(("cazac_estimator", variant), case):
+                    with guard(chk, ("cazac_estimator", variant), case):
                         eval_est(chk, case, cache)
                     chk.outcome("kept_vs_taps", klabel)
 
@@ -1218,7 +1303,7 @@ def est_ctx_unit(chk, unit, cache):
                                     "fam": (N * 131 + shift * 17 + L * 7 + ri * 3 + ii) % 977, "off_h": off_h, "off_i": off_i}
                             case.update(ctx)
                             pre = ("cazac_estimator", variant) + ((ctx["layout"],) if "layout" in ctx else ())
-                            with chk.guard(pre, case):
+                            with guard(chk, pre, case):
                                 eval_est(chk, case, cache)
 
 
@@ -1230,7 +1315,7 @@ def est_hist_unit(chk, unit, cache):
         for hist in itertools.product(range(EST_EVENTS), repeat=n):
             case = {"part": "HE", "N": N, "kind": kind, "normalize": norm, "shift": (3 * len(hist) + hist[0]) % D,
                     "root": root, "history": list(hist), "off_h": off_h, "off_i": off_i}
-            with chk.guard(("cazac_estimator", variant, "history"), case):
+            with guard(chk, ("cazac_estimator", variant, "history"), case):
                 eval_est_history(chk, case, cache)
 
 
@@ -1260,7 +1345,7 @@ def root_pool_unit(chk, unit):
     for i, spec in enumerate(ROOT_POOL):
         if spec[0] == "ok":
             # a VALID construction: an exception of the implementation is a violation (replayable one-event history)
-            with chk.guard(("root_pool_history",), {"part": "HR", "history": [i]}):
+            with guard(chk, ("root_pool_history",), {"part": "HR", "history": [i]}):
                 o = make_root(spec)
                 ref[spec] = (np.asarray(o.seq_array()).tobytes(), int(o.size), int(o.Nzc))
     tables0 = data_tables_digest()
@@ -1269,7 +1354,7 @@ def root_pool_unit(chk, unit):
             if ROOT_POOL[hist[0]][0] == "clobber_newest":
                 continue
             case = {"part": "HR", "history": list(hist)}
-            with chk.guard(("root_pool_history",), case):
+            with guard(chk, ("root_pool_history",), case):
                 eval_root_pool(chk, case, ref, tables0)
 
 
@@ -1308,9 +1393,8 @@ def _root_pool_body(chk, case, ref=None, tables0=None):
                 chk.fail(("root_pool_history", "new_object_differs_from_lone_reference"), at,
                          observed="size %d Nzc %d" % got[1:], expected="size %d Nzc %d, bit-identical" % ref[spec][1:],
                          msg="RootSequence%r after %r" % (spec[1:], [ROOT_POOL[j] for j in hist[:step]]))
-            for o2, _ in live:
-                if np.shares_memory(o2.seq_array(), o.seq_array()):
-                    chk.fail(("root_pool_history", "two_objects_share_memory"), at)
+            chk.outcome("root_objects_memory", "shared" if any(
+                np.shares_memory(np.asarray(o2.seq_array()), np.asarray(o.seq_array())) for o2, _ in live) else "own")
             live.append((o, root_public_state(o)))
         elif spec[0] == "bad":
             chk.invalid_call("root_sequence:size=%s,Nzc=%s,root=%s" % spec[1:], lambda: make_root(spec), [o for o, _ in live])
@@ -1379,18 +1463,18 @@ def est_pool_unit(chk, unit, cache):
     _, maxlen = unit
     off_h, off_i = common.seed_offset(TAG_H), common.seed_offset(TAG_I)
     acts = None
-    with chk.guard(("cazac_estimator", "pool"), {"part": "HP", "history": [], "off_h": off_h, "off_i": off_i}):
+    with guard(chk, ("cazac_estimator", "pool"), {"part": "HP", "history": [], "off_h": off_h, "off_i": off_i}):
         acts = est_pool_prepare(cache, off_h, off_i)
     if acts is None:
         return
     tables0 = data_tables_digest()
     for oi, ec, b, K, _, _ in acts:            # the lone results themselves are right
-        with chk.guard(("cazac_estimator", b["variant"]), ec):
+        with guard(chk, ("cazac_estimator", b["variant"]), ec):
             eval_est(chk, ec, cache)
     for n in range(1, maxlen + 1):
         for hist in itertools.product(range(len(acts)), repeat=n):
             case = {"part": "HP", "history": list(hist), "off_h": off_h, "off_i": off_i}
-            with chk.guard(("cazac_estimator", "pool"), case):
+            with guard(chk, ("cazac_estimator", "pool"), case):
                 eval_est_pool(chk, case, cache, acts)
     chk.outcome("module_data_after_estimator_pool", "unchanged" if data_tables_digest() == tables0 else "changed")
 
@@ -1410,7 +1494,7 @@ def est_big_unit(chk, unit, cache):
                         case = {"part": "E", "N": N, "kind": kind, "normalize": norm, "shift": shift, "root": root,
                                 "L": L, "K": K, "rx": rx, "interf": [list(t) for t in interf],
                                 "fam": (N * 131 + shift * 17 + L * 7 + ri * 3 + ii) % 977, "off_h": off_h, "off_i": off_i}
-                        with chk.guard(("cazac_estimator", variant), case):
+                        with guard(chk, ("cazac_estimator", variant), case):
                             eval_est(chk, case, cache)
                         chk.outcome("largest_size", (kind, norm, root))
 
@@ -1456,7 +1540,7 @@ def seq_hist_unit(chk, unit):
     _, N, root, maxlen = unit
     for hist in seq_histories(maxlen):
         case = {"part": "HS", "N": N, "root": root, "history": hist}
-        with chk.guard(("shared_root_history",), case):
+        with guard(chk, ("shared_root_history",), case):
             eval_seq_history(chk, case)
 
 
@@ -1558,7 +1642,7 @@ def eval_ls(chk, case):
         if ctx is not None:
             base = {k: v for k, v in case.items() if k not in ("pgain", "hgain", "layout")}
             sub = Check(PID, LEVEL, ENGINE, RULE, child=True)
-            with sub.guard(("x",), base):
+            with guard(sub, ("x",), base):
                 eval_ls(sub, base)
             if not sub.violations:
                 sig = ("ls_estimation", form, "wrong_only_for",
@@ -1579,7 +1663,7 @@ def ls_ctx_unit(chk, unit):
     ctxs += [{"layout": l} for l in LS_LAYOUTS]
     for which, _ in ls_error_cases(Nt, Np, form):
         case = {"part": "LE", "Nt": Nt, "Np": Np, "form": form, "which": which, "off_s": off_s, "off_h": off_h}
-        with chk.guard(("after_invalid_call", "ls_estimation", form), case):
+        with guard(chk, ("after_invalid_call", "ls_estimation", form), case):
             eval_ls_error(chk, case)
     for pidx in range(S):
         for Nr in (1, 2, 3, 4):
@@ -1588,7 +1672,7 @@ def ls_ctx_unit(chk, unit):
                         "hidx": (pidx * 5 + Nr) % 911, "off_s": off_s, "off_h": off_h}
                 case.update(ctx)
                 pre = ("ls_estimation", form) + ((ctx["layout"],) if "layout" in ctx else ())
-                with chk.guard(pre, case):
+                with guard(chk, pre, case):
                     eval_ls(chk, case)
 
 
@@ -1601,7 +1685,7 @@ def ls_unit(chk, unit):
         for Nr in nrs:
             case = {"part": "L", "pfam": pfam, "pidx": pidx, "Nt": Nt, "Np": Np, "Nr": Nr, "form": form,
                     "hidx": (pidx * 5 + Nr) % 911, "off_s": off_s, "off_h": off_h}
-            with chk.guard(("ls_estimation", form), case):
+            with guard(chk, ("ls_estimation", form), case):
                 eval_ls(chk, case)
 
 
@@ -1733,7 +1817,7 @@ def _as_tuple(x):
 def run_unit(chk, unit, tools, cache):
     """safety net: whatever escapes the per-case guards of a unit (a preparation step of the unit calling the
     implementation with a VALID request) becomes a violation with the unit as replayable case; the shard continues"""
-    with chk.guard(("unit", unit[0]), {"part": "unit", "unit": _as_list(unit)}):
+    with guard(chk, ("unit", unit[0]), {"part": "unit", "unit": _as_list(unit)}):
         _run_unit(chk, unit, tools, cache)
 
 
@@ -1744,19 +1828,19 @@ def _run_unit(chk, unit, tools, cache):
             from pyphysim.reference_signals.root_sequence import RootSequence
             case0 = {"part": "Z", "size": size, "root": 1}
             nzc = None
-            with chk.guard(("root_sequence",), case0):
+            with guard(chk, ("root_sequence",), case0):
                 nzc = int(RootSequence(root_index=1, size=size).Nzc)
             if nzc is None:
                 continue
             for u in designated_roots(nzc):
                 case = {"part": "Z", "size": size, "root": u}
-                with chk.guard(("zc_root",), case):
+                with guard(chk, ("zc_root",), case):
                     eval_zc(chk, case, tools)
     elif what == "table":
         seen = {}
         for u in range(30):
             case = {"part": "Z", "size": unit[1], "root": u}
-            with chk.guard(("table_root",), case):
+            with guard(chk, ("table_root",), case):
                 b = eval_table(chk, case)
                 if b is not None and b in seen:
                     chk.fail(("table_root", "two_root_indexes_same_sequence"), case, observed=(seen[b], u),
@@ -1769,7 +1853,7 @@ def _run_unit(chk, unit, tools, cache):
             if chk.tier != "thorough" and p > 200 and u % 16 != 3 and u not in des:
                 continue
             case = {"part": "R", "nzc": p, "root": u, "direct": u in des}
-            with chk.guard(("zc_root",), case):
+            with guard(chk, ("zc_root",), case):
                 eval_allroots(chk, case, tools)
     elif what == "ext":
         p = unit[1]
@@ -1778,13 +1862,13 @@ def _run_unit(chk, unit, tools, cache):
                 if size <= 24:
                     continue
                 case = {"part": "X", "nzc": p, "root": u, "size": size}
-                with chk.guard(("cyclic_extension",), case):
+                with guard(chk, ("cyclic_extension",), case):
                     eval_ext(chk, case)
     elif what == "extraw":
         for n in range(1, 7):
             for size in range(n, 4 * n + 2):
                 case = {"part": "X", "raw": True, "n": n, "size": size}
-                with chk.guard(("cyclic_extension",), case):
+                with guard(chk, ("cyclic_extension",), case):
                     eval_ext_raw(chk, case)
     elif what == "shift":
         _, kind, size = unit
@@ -1794,7 +1878,7 @@ def _run_unit(chk, unit, tools, cache):
             # roots must be valid for the OBJECT's base length (which the prime check P judges separately)
             from pyphysim.reference_signals.root_sequence import RootSequence
             nzc = None
-            with chk.guard(("root_sequence",), {"part": "S", "kind": kind, "size": size, "root": 1, "normalize": False}):
+            with guard(chk, ("root_sequence",), {"part": "S", "kind": kind, "size": size, "root": 1, "normalize": False}):
                 nzc = int(RootSequence(root_index=1, size=size).Nzc)
             if nzc is None:
                 return
@@ -1802,7 +1886,7 @@ def _run_unit(chk, unit, tools, cache):
         for u in roots:
             for norm in (False, True):
                 case = {"part": "S", "kind": kind, "size": size, "root": u, "normalize": norm}
-                with chk.guard(("user_sequence", kind), case):
+                with guard(chk, ("user_sequence", kind), case):
                     eval_shift(chk, case)
     elif what == "est":
         est_unit(chk, unit, cache)
@@ -1835,7 +1919,7 @@ def self_check_determinism():
     for _ in range(2):
         c = Check(PID, LEVEL, ENGINE, RULE, child=True)
         e = None
-        with c.guard(("cazac_estimator", "occ"), case):     # a crash here is the library's, reported by part E
+        with guard(c, ("cazac_estimator", "occ"), case):     # a crash here is the library's, reported by part E
             e = eval_est(c, case, SeqCache())
         outs.append((None if e is None else e.tobytes(), sorted(c.violations)))
     if outs[0] != outs[1]:
@@ -1865,10 +1949,15 @@ def main(chk: Check):
 
     def worker(i, n, c):
         tools, cache = ZcTools(), SeqCache()
-        for unit in shard(units, i, n):
-            run_unit(c, unit, tools, cache)
+        try:
+            for unit in shard(units, i, n):
+                run_unit(c, unit, tools, cache)
+        except Broken as e:
+            c.extra["broken_in_worker"] = "shard %d: %s" % (i, e)
 
     run_shards(chk, worker)
+    if "broken_in_worker" in chk.extra:
+        raise Broken(chk.extra["broken_in_worker"])
     if chk.tier != "thorough":
         chk.assume("quick tier: Z on sizes that are multiples of 12; E on lengths {24,25,31,36,40,48,50,64,72,96,144} with the "
                    "seed-chosen root (24: root 0; 25: also roots 1 and Nzc-1), receive forms 1-D, 1, 2 antennas (1-D and 2 for "
@@ -1903,32 +1992,32 @@ def replay(case, chk: Check):
     tools, cache = ZcTools(), SeqCache()
     if part == "P":
         c = {"part": "P", "size": case["size"]}
-        with chk.guard(("prime_selection",), c):
+        with guard(chk, ("prime_selection",), c):
             eval_prime(chk, c)
     elif part == "Z":
         c = {k: case[k] for k in ("part", "size", "root")}
         if case["size"] <= 24:
-            with chk.guard(("table_root",), c):
+            with guard(chk, ("table_root",), c):
                 eval_table(chk, c)
         else:
-            with chk.guard(("zc_root",), c):
+            with guard(chk, ("zc_root",), c):
                 eval_zc(chk, c, tools)
     elif part == "R":
         c = {k: case[k] for k in ("part", "nzc", "root", "direct")}
-        with chk.guard(("zc_root",), c):
+        with guard(chk, ("zc_root",), c):
             eval_allroots(chk, c, tools)
     elif part == "X":
         if case.get("raw"):
             c = {k: case[k] for k in ("part", "raw", "n", "size")}
-            with chk.guard(("cyclic_extension",), c):
+            with guard(chk, ("cyclic_extension",), c):
                 eval_ext_raw(chk, c)
         else:
             c = {k: case[k] for k in ("part", "nzc", "root", "size")}
-            with chk.guard(("cyclic_extension",), c):
+            with guard(chk, ("cyclic_extension",), c):
                 eval_ext(chk, c)
     elif part == "S":
         c = {k: case[k] for k in ("part", "kind", "size", "root", "normalize")}
-        with chk.guard(("user_sequence", c["kind"]), c):
+        with guard(chk, ("user_sequence", c["kind"]), c):
             eval_shift(chk, c)
     elif part == "E":
         c = dict(case)
@@ -1936,34 +2025,34 @@ def replay(case, chk: Check):
         variant = kind_info(c["kind"])[5]
         c.pop("step", None)
         pre = ("cazac_estimator", variant) + ((c["layout"],) if c.get("layout", "c") != "c" else ())
-        with chk.guard(pre, c):
+        with guard(chk, pre, c):
             eval_est(chk, c, cache)
     elif part == "unit":
         run_unit(chk, _as_tuple(case["unit"]), tools, cache)
     elif part == "HR":
         c = {"part": "HR", "history": list(case["history"])}
-        with chk.guard(("root_pool_history",), c):
+        with guard(chk, ("root_pool_history",), c):
             eval_root_pool(chk, c)
     elif part == "HP":
         c = {k: case[k] for k in ("part", "history", "off_h", "off_i")}
-        with chk.guard(("cazac_estimator", "pool"), c):
+        with guard(chk, ("cazac_estimator", "pool"), c):
             eval_est_pool(chk, c, cache)
     elif part == "LE":
         c = {k: case[k] for k in ("part", "Nt", "Np", "form", "which", "off_s", "off_h")}
-        with chk.guard(("after_invalid_call", "ls_estimation", c["form"]), c):
+        with guard(chk, ("after_invalid_call", "ls_estimation", c["form"]), c):
             eval_ls_error(chk, c)
     elif part == "HS":
         c = {k: case[k] for k in ("part", "N", "root", "history")}
-        with chk.guard(("shared_root_history",), c):
+        with guard(chk, ("shared_root_history",), c):
             eval_seq_history(chk, c)
     elif part == "HE":
         c = {k: case[k] for k in ("part", "N", "kind", "normalize", "shift", "root", "history", "off_h", "off_i")}
-        with chk.guard(("cazac_estimator", kind_info(c["kind"])[5], "history"), c):
+        with guard(chk, ("cazac_estimator", kind_info(c["kind"])[5], "history"), c):
             eval_est_history(chk, c, cache)
     elif part == "L":
         c = dict(case)
         pre = ("ls_estimation", c["form"]) + ((c["layout"],) if c.get("layout", "c") != "c" else ())
-        with chk.guard(pre, c):
+        with guard(chk, pre, c):
             eval_ls(chk, c)
     else:
         raise Broken("unknown replay case %r" % (case,))
